@@ -95,7 +95,7 @@ func examples(s *spec.Spec) {
 	s.Types = append(s.Types, &spec.UserType{Name: "C09Examples", Kind: "type", Def: def})
 	nosec := len(s.API.Security) > 0
 	ref := func() *spec.Attr { return &spec.Attr{Type: &spec.Type{Kind: spec.Ref, Ref: "C09Examples"}} }
-	s.Services = append(s.Services, &spec.Service{Name: "c09examples", BasePath: "/c09examples", Methods: []*spec.Method{
+	s.Services = append(s.Services, &spec.Service{Name: "generator_c09", BasePath: "/c09examples", Methods: []*spec.Method{
 		{Name: "show", NoSec: nosec, Payload: ref(), Result: ref(), HTTP: &spec.HTTP{Routes: []spec.Route{{Verb: "POST", Path: "/show"}}}},
 		{Name: "find", NoSec: nosec, Payload: ref(), Result: ref(), HTTP: &spec.HTTP{Routes: []spec.Route{{Verb: "GET", Path: "/find/{fmt_uuid}"}},
 			Path: []spec.Loc{{Attr: "fmt_uuid"}}, Query: []spec.Loc{{Attr: "fmt_date"}, {Attr: "ids"}, {Attr: "pat"}}, Headers: []spec.Loc{{Attr: "fmt_email", Wire: "X-Email"}}, Body: "empty"}},
